@@ -9,7 +9,7 @@ import os
 import re
 import mirq
 import panics
-from synq import Syn, walk, find, unparse
+from synq import Syn, walk, find, unparse, pat_names, strip
 from core import VERIF
 
 ENTRY_RX = r"api::query::Query::<'a>::parse$|api::query::Constraint::<'a>::parse$|api::query::Assignment::<'a>::parse$|<api::query::Query<'a> as std::convert::TryFrom<&'a str>>::try_from$"
@@ -89,6 +89,7 @@ def run(ctx):
     align_rule(ctx, syn)
     cursor_rule(ctx, syn)
     print_rule(ctx, syn)
+    lossless_rule(ctx, syn)
 
     # ---------------- keyword tables
     r_kw = ctx.rule("C09.KW", "every keyword a printer can emit is accepted by the parser")
@@ -565,3 +566,91 @@ def print_rule(ctx, syn):
     r.hit("subquery-separator")
     if not seps or not any("|" in (lit.get("v") or "") for lp in seps for lit in walk(lp["body"]) if lit.get("k") == "lit" and lit.get("t") in ("str", "char")):
         ctx.report(r, "subquery-separator", "Query::to_string writes several sub-queries without the `|` separator the parser requires between them", ts.file, ts.line)
+
+
+# ---------------------------------------------------------------------- LOSSLESS
+LOSSLESS_DT = "to_rfc3339() or to_rfc3339_opts(SecondsFormat::AutoSi | Nanos, _): the full instant, in the notation DateTime::parse_from_rfc3339 reads"
+
+
+def lossless_rule(ctx, syn):
+    """DataOperator::to_string prints the payload of each operator as a literal the parser reads back to the same value.
+    For the numeric and datetime payloads that is a property of the formatter alone: `{}` of an integer or float is exact
+    (shortest round-trip), a precision/width specifier is not; a datetime is exact through to_rfc3339() only."""
+    r = ctx.rule("C09.LOSSLESS", "DataOperator::to_string renders numeric payloads with a bare {} and datetime payloads with to_rfc3339() (or an equally exact to_rfc3339_opts), directly or through a crate function that does")
+    fs = [f for f in syn.fns if f.name == "to_string" and f.file == "src/datavalue.rs" and "DataOperator" in (f.self_ty or "")]
+    if len(fs) != 1 or "DataOperator" not in syn.enums:
+        ctx.anchor_missing(r, "DataOperator::to_string")
+        return
+    fn = fs[0]
+    ctx.functions_analysed.add(fn.qual)
+    payload = {}
+    for v in syn.enums["DataOperator"]["variants"]:
+        if len(v["fields"]) == 1:
+            t = re.sub(r"\s+", "", v["fields"][0]["ty"]["s"])
+            payload[v["name"]] = "datetime" if t.startswith("DateTime<") else "number" if t in ("isize", "f64", "i64", "usize", "f32") else None
+    ms = [n for n in walk(fn.body) if n.get("k") == "match" and unparse(n["e"]) == "self"]
+    if len(ms) != 1:
+        ctx.anchor_missing(r, "match self in DataOperator::to_string")
+        return
+    local_fns = dict((f.name, f) for f in syn.fns if f.file == fn.file and f.impl is None)
+
+    def exact_dt(e, var, depth=0):
+        """is expression e an exact RFC 3339 rendering of variable var? returns (True, how) / (False, why)"""
+        e = strip(e)
+        if e.get("k") == "mcall" and strip(e["recv"]).get("k") == "path" and strip(e["recv"])["path"] == [var]:
+            if e["method"] == "to_rfc3339" and not e["args"]:
+                return True, "to_rfc3339()"
+            if e["method"] == "to_rfc3339_opts" and e["args"]:
+                a0 = strip(e["args"][0])
+                if a0.get("k") == "path" and a0["path"][-1] in ("AutoSi", "Nanos"):
+                    return True, "to_rfc3339_opts(%s, ..)" % a0["path"][-1]
+                return False, "to_rfc3339_opts(%s, ..) truncates the sub-second part" % unparse(a0)
+            return False, "%s.%s(..) is not a known exact RFC 3339 rendering" % (var, e["method"])
+        if e.get("k") == "call" and strip(e["func"]).get("k") == "path" and len(e["args"]) == 1 and depth < 3:
+            g = local_fns.get(strip(e["func"])["path"][-1])
+            a = strip(e["args"][0])
+            if g is not None and g.body and a.get("k") == "path" and a["path"] == [var]:
+                pn = g.sig["inputs"][0]["pat"].get("name")
+                tail = None
+                st = g.body["stmts"]
+                if len(st) == 1 and st[0]["k"] == "exprstmt" and not st[0].get("semi"):
+                    tail = st[0]["e"]
+                if tail is None or pn is None:
+                    return False, "helper %s is not a single expression" % g.name
+                ok_, how = exact_dt(tail, pn, depth + 1)
+                return ok_, "%s: %s" % (g.name, how)
+        if e.get("k") == "path" and e["path"] == [var]:
+            return False, "Display of DateTime is not RFC 3339"
+        return False, "%s is not a known exact RFC 3339 rendering" % unparse(e)[:60]
+    n = 0
+    for a in ms[0]["arms"]:
+        pat = a["pat"]
+        if pat.get("p") != "tuplestruct" or not pat.get("path"):
+            continue
+        kind = payload.get(pat["path"][-1])
+        names = pat_names(pat)
+        if kind is None or len(names) != 1:
+            continue
+        var = names[0]
+        fm = [m for m in walk(a["body"]) if m.get("k") == "macro" and m["name"] == "format" and m.get("args")]
+        key = pat["path"][-1]
+        n += 1
+        r.hit(key, sample={"variant": key, "payload": kind, "rendered_by": unparse(a["body"])[:80]})
+        if len(fm) != 1 or strip(fm[0]["args"][0]).get("k") != "lit":
+            ctx.report(r, "shape:" + key, "the arm DataOperator::%s of to_string is not a single format!(literal, ..): how the payload is rendered is not established" % key, fn.file, a["l"])
+            continue
+        spec = re.findall(r"\{[^}]*\}", strip(fm[0]["args"][0])["v"].replace("{{", "").replace("}}", ""))
+        if any(x != "{}" for x in spec):
+            ctx.report(r, "spec:" + key, "DataOperator::%s is printed with the format specifier %s: a width/precision changes the literal, the parser reads back another value" % (key, [x for x in spec if x != "{}"]), fn.file, a["l"])
+        rest = fm[0]["args"][1:]
+        if kind == "number":
+            if not (len(rest) == 1 and strip(rest[0]).get("k") == "path" and strip(rest[0])["path"] == [var]):
+                ctx.report(r, "render:" + key, "DataOperator::%s prints %s instead of the payload itself" % (key, ",".join(unparse(x) for x in rest)), fn.file, a["l"])
+        else:
+            if len(rest) != 1:
+                ctx.report(r, "render:" + key, "DataOperator::%s: unexpected format arguments" % key, fn.file, a["l"])
+                continue
+            ok_, how = exact_dt(rest[0], var)
+            if not ok_:
+                ctx.report(r, "render:" + key, "DataOperator::%s prints its datetime through %s; an exact rendering is %s" % (key, how, LOSSLESS_DT), fn.file, a["l"])
+    ctx.floor(r, n, 15, "operator arms with a numeric or datetime payload")
